@@ -481,6 +481,7 @@ def real_runs(judge, seed, corp, n):
 
 def selftests(seed, tier, full=False):
     from . import selftest
+    rule = selftest.c15_sink_rule()
     n = (2000 if tier == 'thorough' else 200) if full else 48
     idx = list(range(n))
     a = digests(seed, 'quick', idx, 16)
@@ -490,7 +491,7 @@ def selftests(seed, tier, full=False):
     bad = [i for i in idx if not (a[i] == b[i] == c[i] == d[i])]
     if bad:
         raise core.HarnessError('determinism self-test failed for C15 scenario indices %s (seed %d)' % (bad[:10], seed))
-    return {'determinism': {'seeds': n, 'executions_each': 4, 'worker_counts': [16, 3], 'fresh_interpreter_hashseeds': [0, 4242], 'diverged': 0}}
+    return {'fault_acceptance_rule_table': rule, 'determinism': {'seeds': n, 'executions_each': 4, 'worker_counts': [16, 3], 'fresh_interpreter_hashseeds': [0, 4242], 'diverged': 0}}
 
 
 def run_check(tier, seed):
